@@ -73,11 +73,7 @@ def corrupt_crc_inc(run):
 
 
 def corrupt_crc_fold(run):
-    """the seeded regression itself: the register after the FF FF FF FF header is 0; the implementation is made to
-    look as if it had continued from 0xFFFFFFFF, i.e. the second register equals update(FFFFFFFF, payload).
-    Built from the trace only: that value is the first register of the stream cut 0 | payload logged elsewhere?  No:
-    simply replace the second register by the value another event reports for the same payload from init FFFFFFFF
-    is not available, so one bit of the register behind the zero register is flipped."""
+    """a stream passing through register 0 at a cut: one bit of the register behind the zero register changed"""
     e = _first(run, "crc_fold", lambda e: len(e["regs"]) >= 2 and e["regs"][0] == [0, 0])
     if e is None:
         return None
@@ -311,7 +307,7 @@ def run(ctx):
         ("compare", "memops:compare", corrupt_compare_single, "sign of a single compare answer flipped"),
         ("crc", "crc:crc32c", corrupt_crc, "one bit of a CRC-32C value changed"),
         ("crc", "crc:crc32c", corrupt_crc_inc, "one bit of an incrementally computed CRC-32C changed"),
-        ("crc", "crc:crc32c", corrupt_crc_fold, "a stream whose register is 0 at a cut restarted from FFFFFFFF (next register recomputed that way)"),
+        ("crc", "crc:crc32c", corrupt_crc_fold, "one bit of the register that follows a zero register at a cut changed"),
         ("findbyte", "memops:find_byte", corrupt_find_tail, "byte in the tail reported one position early"),
         ("findsub", "iosearch:scalar_strstr", corrupt_findsub, "occurrence at the last position reported absent"),
         ("utf8", "ioutf8:validate_utf8", corrupt_utf8, "surrogate ED BF 80 reported valid"),
